@@ -139,6 +139,9 @@ struct Mk {
   MAKE_MOCK1(f, int(int));
   MAKE_MOCK1(g, int(int));
 };
+struct Mk1 {
+  MAKE_MOCK1(f, int(int));
+};
 struct Dw { virtual ~Dw() = default; int x = 0; };
 
 struct DataPred { bool operator()(int v, int want) const { return want < 0 || v == want; } };
@@ -160,7 +163,7 @@ struct World {
   std::unique_ptr<trompeloeil::expectation> slot[NSLOTS];
   trompeloeil::deathwatched<Dw>* dw[MAXTH + 1] = {};
   std::unique_ptr<trompeloeil::expectation> mon[MAXTH + 1];
-  Mk* own_mock[MAXTH + 1] = {};
+  Mk1* own_mock[MAXTH + 1] = {};
   std::unique_ptr<trompeloeil::expectation> own_exp[MAXTH + 1];
 };
 static World* Wd = nullptr;
@@ -365,6 +368,7 @@ static vc::Args A;
 static vc::Stats ST;
 static std::string g_last_fail;
 static int g_next_id = 1;
+static long g_search_budget = 50000;   // placements tried before a disagreement is declared unexplained
 
 static int slot_of(int tid, int k) { return (tid < 0 ? MAXTH : tid) * SLOTS_PER_THREAD + (k % SLOTS_PER_THREAD); }
 static int owner_index(int tid) { return tid < 0 ? MAXTH : tid; }
@@ -467,12 +471,21 @@ static void run_op(int tid, int opi, const Op& o, std::vector<int>& slot_id, int
         // a mock object private to this thread: create, put an expectation on it, maybe call, destroy
         int mi = NMOCK + oi;
         if (!Wd->own_mock[oi]) {
-          Wd->own_mock[oi] = new Mk;
+          Wd->own_mock[oi] = new Mk1;
           int id = id_base + opi + 1;
           long lo = o.a % 2, hi = 1 + o.a % 2;
-          ev(E_LIMITS, id, 0, 0, 0, lo, hi);
-          ev(E_HOOK, id, mi, 0, -1);
-          Wd->own_exp[oi] = NAMED_REQUIRE_CALL(*Wd->own_mock[oi], f(trompeloeil::_)).RT_TIMES(static_cast<size_t>(lo), static_cast<size_t>(hi)).RETURN(id);
+          if ((o.a / 2) % 2) {
+            // registered in a SHARED sequence: the private mock may die before this expectation is released
+            int k = (o.a / 4) % NSEQ;
+            ev(E_REG, id, k);
+            ev(E_LIMITS, id, 0, 0, 0, lo, hi);
+            ev(E_HOOK, id, mi, 0, -1);
+            Wd->own_exp[oi] = NAMED_REQUIRE_CALL(*Wd->own_mock[oi], f(trompeloeil::_)).IN_SEQUENCE(*Wd->seq[k]).RT_TIMES(static_cast<size_t>(lo), static_cast<size_t>(hi)).RETURN(id);
+          } else {
+            ev(E_LIMITS, id, 0, 0, 0, lo, hi);
+            ev(E_HOOK, id, mi, 0, -1);
+            Wd->own_exp[oi] = NAMED_REQUIRE_CALL(*Wd->own_mock[oi], f(trompeloeil::_)).RT_TIMES(static_cast<size_t>(lo), static_cast<size_t>(hi)).RETURN(id);
+          }
           ownexp_id = id;
           res = "own-created";
         } else {
@@ -525,7 +538,7 @@ static std::string expected_observation(const OpRec& r, const std::vector<std::s
     case T_KILL: res = r.events.empty() ? "skip" : "killed"; if (!r.events.empty() && !evres[0].empty()) add_reports(evres[0]); break;
     case T_UNWATCH: res = r.events.empty() ? "skip" : "unwatched"; if (!r.events.empty() && !evres[0].empty()) add_reports(evres[0]); break;
     case T_MOCKLIFE: {
-      if (r.events.size() == 2 && r.events[0].type == E_LIMITS) { res = "own-created"; break; }
+      if (!r.events.empty() && r.events.back().type == E_HOOK) { res = "own-created"; break; }
       size_t i = 0;
       if (r.events[0].type == E_CALL) {
         if (evres[0][0] == 'R') res = evres[0] + ";";
@@ -588,30 +601,49 @@ static std::string linearizable(const std::vector<OpRec>& recs_in, long* searche
     if (r.tickets.empty()) r.tickets.push_back(lo + 1);
   }
   std::vector<std::vector<size_t>> place(recs.size());
-  // default placement: event i on section min(i, last); single-event operations on their first section
-  for (size_t r = 0; r < recs.size(); ++r)
-    for (size_t e = 0; e < recs[r].events.size(); ++e) place[r].push_back(std::min(e, recs[r].tickets.size() - 1));
+  // default placement: event i on section i, the last event on the last section
+  for (size_t r = 0; r < recs.size(); ++r) {
+    size_t ne = recs[r].events.size(), nt = recs[r].tickets.size();
+    for (size_t e = 0; e < ne; ++e) place[r].push_back(e + 1 == ne ? nt - 1 : std::min(e, nt - 1));
+  }
   std::string first = replay(recs, place);
   if (first.empty()) return "";
-  // search other non-decreasing placements (only operations with a real choice)
+  // Search other order-preserving placements. Two sections of one operation with no other thread's section
+  // between them are equivalent positions, so only one representative per such block is tried, and only
+  // operations that are interleaved with another thread have a choice at all.
+  std::vector<long> foreign;  // all tickets with their thread, sorted
+  std::vector<std::pair<long, int>> all_t;
+  for (auto& r : recs) for (long t : r.tickets) all_t.push_back({t, r.tid});
+  std::sort(all_t.begin(), all_t.end());
+  auto foreign_between = [&](long a, long b, int tid) {
+    for (auto& p : all_t) if (p.first > a && p.first < b && p.second != tid) return true;
+    return false;
+  };
   std::vector<size_t> multi;
-  for (size_t r = 0; r < recs.size(); ++r) if (recs[r].tickets.size() > 1 && !recs[r].events.empty()) multi.push_back(r);
+  std::vector<std::vector<size_t>> reps(recs.size());   // representative section index of each block
+  for (size_t r = 0; r < recs.size(); ++r) {
+    if (recs[r].events.empty()) continue;
+    const auto& tk = recs[r].tickets;
+    reps[r].push_back(0);
+    for (size_t i = 1; i < tk.size(); ++i) if (foreign_between(tk[i - 1], tk[i], recs[r].tid)) reps[r].push_back(i);
+    if (reps[r].size() > 1) multi.push_back(r);
+  }
   if (multi.empty()) return first;
-  long budget = 200000;
+  long budget = g_search_budget;
   std::function<bool(size_t)> rec_search = [&](size_t k) -> bool {
     if (k == multi.size()) { ++*searched; if (--budget < 0) return false; return replay(recs, place).empty(); }
     size_t r = multi[k];
-    size_t ne = recs[r].events.size(), nt = recs[r].tickets.size();
+    size_t ne = recs[r].events.size(), nb = reps[r].size();
     std::vector<size_t> cur(ne, 0);
     std::function<bool(size_t, size_t)> gen = [&](size_t e, size_t lo) -> bool {
-      if (e == ne) { place[r] = cur; return rec_search(k + 1); }
-      for (size_t t = lo; t < nt; ++t) { cur[e] = t; if (gen(e + 1, t)) return true; }
+      if (e == ne) { for (size_t i = 0; i < ne; ++i) place[r][i] = reps[r][cur[i]]; return rec_search(k + 1); }
+      for (size_t t = lo; t < nb; ++t) { cur[e] = t; if (gen(e + 1, t)) return true; if (budget < 0) return false; }
       return false;
     };
     return gen(0, 0);
   };
   if (rec_search(0)) return "";
-  return first + (budget < 0 ? " [placement search budget exhausted]" : " [no placement of creation steps on its critical sections explains it]");
+  return first + (budget < 0 ? " [placement search budget exhausted]" : " [no placement of the operation's steps on its critical sections explains it]");
 }
 
 // ------------------------------------------------------------------------------------------
@@ -782,8 +814,8 @@ static rc::Gen<Op> gen_op(bool prologue) {
     else if (k < 76) o.kind = T_QSATU;
     else if (k < 84) o.kind = T_QCOMP;
     else if (k < 89) o.kind = T_WATCH;
-    else if (k < 93) o.kind = T_KILL;
-    else if (k < 96) o.kind = T_UNWATCH;
+    else if (k < 92) o.kind = T_KILL;
+    else if (k < 94) o.kind = T_UNWATCH;
     else o.kind = T_MOCKLIFE;
     auto small = [](int n) { return *rc::gen::resize(100, rc::gen::inRange(0, n)); };
     switch (o.kind) {
@@ -792,7 +824,7 @@ static rc::Gen<Op> gen_op(bool prologue) {
       case T_RELEASE: case T_QSAT: case T_QSATU: o.a = small(2); break;
       case T_QCOMP: o.a = small(3) ? 0 : 1; break;
       case T_WATCH: o.a = small(2); o.b = small(3) ? 0 : 1; break;
-      case T_MOCKLIFE: o.a = small(2); o.b = small(2); break;
+      case T_MOCKLIFE: o.a = small(8); o.b = small(2); break;
       default: break;
     }
     return o;
@@ -842,6 +874,7 @@ static bool enumerate_all(Program p, long* count, std::string* why, long cap) {
 
 int main(int argc, char** argv) {
   A = vc::parse_args(argc, argv);
+  g_search_budget = A.geti("budget", 50000);
   std::string mode = A.get("mode", "A");   // A: free-running (TSan build), B: owned random schedules, E: exhaustive schedules of tiny programs
   ST.rule = "rapidcheck generates programs of 2..N threads x 1..6 operations {call, create (6 spellings of IN_SEQUENCE/TIMES order), release, "
             "is_satisfied, is_saturated, is_completed, watch/kill/unwatch a thread-private deathwatched object (optionally in a shared sequence), "
